@@ -8,7 +8,7 @@ import numpy as np
 
 from simkit import batch, graphwalk
 from simkit.batch import dd_list
-from simkit.values import fingerprint, norm, same
+from simkit.values import T, TracerOverflow, fingerprint, norm, same
 
 BOX = {1: 4, 2: 2, 3: 1}  # per-axis maximal order covered by the oracle table
 SERIES = ("H_tilde", "U", "U_inv")
@@ -23,8 +23,13 @@ class Poisoned(Exception):
     """Raised by a Hamiltonian term outside the dependency cone (C12 poisoned twin)."""
 
 
+class SimBaseFault(BaseException):
+    """Injected failure that is not an Exception (stands for timeouts/cancellations derived from BaseException)."""
+
+
 FAULT_KINDS = {"SimFault": SimFault, "ValueError": ValueError, "RuntimeError": RuntimeError,
-               "MemoryError": MemoryError, "KeyboardInterrupt": KeyboardInterrupt}
+               "MemoryError": MemoryError, "KeyboardInterrupt": KeyboardInterrupt, "SimBaseFault": SimBaseFault,
+               "SystemExit": SystemExit}
 
 
 def leq(m, n):
@@ -228,6 +233,34 @@ class Inputs:
                     if rg.random() < w.get("p_zero_block", 0.0):
                         self.absent.add((i, j, o))
                         self.absent.add((j, i, o))
+        self.tracer = w["domain"] == "tracer"
+        if self.tracer:
+            # exact, provenance-carrying values of a free *-algebra; one scalar element per block
+            herm = w["herm"]
+            self.e = None
+            self.full = {}
+            self.blocks = {}
+            for o in [self.zero_o] + [tuple(t) for t in w["terms"]]:
+                for i in range(nb):
+                    for j in range(nb):
+                        if herm and i > j:
+                            continue
+                        key = (i, j, *o)
+                        if o == self.zero_o:
+                            if i != j:
+                                continue
+                            g = T.gen(f"h0_{i}")
+                            self.blocks[key] = g + g.adjoint() if herm else g
+                        elif (i, j, o) in self.absent:
+                            continue
+                        else:
+                            g = T.gen(f"H{list(key)}")
+                            self.blocks[key] = g + g.adjoint() if (herm and i == j) else g
+                        if herm and i < j:
+                            self.blocks[(j, i, *o)] = self.blocks[key].adjoint()
+            self.vecs = None
+            self.masks = {}
+            return
         if self.sym:
             import sympy
 
@@ -457,6 +490,8 @@ class Sim:
 
         spec = self.w["comps"][c]
         env = self.env
+        if self.w["domain"] == "tracer":
+            return self._build_tracer(c, spec)
         kw = dict(self.kw)
         kw["hermitian"] = spec["herm"]
         fd = spec.get("fd")
@@ -500,6 +535,34 @@ class Sim:
             derived["d2"] = cauchy_dot_product(U, Ht, Ui, operator=env.mm)
             if self.w["fmt"] == "blocked" and spec.get("chain") is None:
                 derived["d1"] = cauchy_dot_product(Ui, self.H, U, operator=env.mm)
+        self.comps[c] = {"out": out, "derived": derived}
+
+    def _build_tracer(self, c, spec):
+        """series_computation level: every seam is a public argument (input eval, scope solver, operator)."""
+        from pymablock import algorithms
+        from pymablock.algorithm_parsing import series_computation
+        from pymablock.series import cauchy_dot_product
+
+        env, zero = self.env, self.inp.zero
+
+        def solve_sylvester(Y, index):
+            env.tick("S", tuple(int(i) for i in index))
+            if Y is zero:
+                return zero
+            return T.fun("S", Y, int(index[0]), int(index[1]))
+
+        scope = {"solve_sylvester": solve_sylvester,
+                 "two_block_optimized": bool(spec.get("two_block_optimized")) and self.inp.nb == 2,
+                 "commuting_blocks": list(spec.get("commuting_blocks") or [True] * self.inp.nb)}
+        algo = algorithms.main if spec["herm"] else algorithms.nonhermitian
+        series, _ = series_computation({"H": self.H}, algorithm=algo, scope=scope, operator=env.mm)
+        out = (series["H_tilde"], series["U"], series["U†"])
+        derived = {}
+        if self.w.get("derived"):
+            Ht, U, Ui = out
+            derived["d0"] = cauchy_dot_product(Ui, U, operator=env.mm, hermitian=bool(spec["herm"] and spec.get("d0_herm")))
+            derived["d2"] = cauchy_dot_product(U, Ht, Ui, operator=env.mm)
+            derived["d1"] = cauchy_dot_product(Ui, self.H, U, operator=env.mm)
         self.comps[c] = {"out": out, "derived": derived}
 
     def has(self, c, s):
@@ -608,7 +671,12 @@ def fresh_table(world, used=None):
         try:
             v = sim.series(c, s)[(i, j, *n)]
             table[key] = _snap(norm(v))
-        except Exception as e:  # ill-posed members: the request must raise under every history
+        except Exception as e:  # ill-posed members
+            x = e
+            while x is not None:
+                if isinstance(x, TracerOverflow):
+                    raise TracerOverflow() from None
+                x = x.__cause__ or x.__context__
             table[key] = ("raise", type(e).__name__)
     if len(_TABLE_CACHE) > 6:
         _TABLE_CACHE.clear()
@@ -656,6 +724,15 @@ class GraphProp:
 
     # ------------------------------------------------------------------ execute
     def execute(self, case):
+        T.work, T.budget = 0, 600000
+        try:
+            return self._execute(case)
+        except TracerOverflow:
+            # the exact expressions outgrew the budget of a run: skipped, not judged
+            return {"violation": None, "digest": "overflow", "events": 0, "nontrivial": False,
+                    "counters": {"tracer_overflow": 1}, "states": [], "op_ticks": {}}
+
+    def _execute(self, case):
         from pymablock.series import BlockSeries
 
         world = case["world"]
@@ -950,6 +1027,11 @@ class GraphProp:
             if isinstance(e, batch.RunTimeout):
                 raise
             raised = e
+            x = e
+            while x is not None:
+                if isinstance(x, TracerOverflow):
+                    raise TracerOverflow() from None
+                x = x.__cause__ or x.__context__
         fired = env.fired[fired_before:]
         desc = f"op#{opi} {'build ' + str(what[1]) if what[0] == 'build' else self._desc(what)}"
         if fired:
@@ -1062,6 +1144,11 @@ class GraphProp:
                 except BaseException as e:  # noqa: BLE001
                     if isinstance(e, batch.RunTimeout):
                         raise
+                    x = e
+                    while x is not None:
+                        if isinstance(x, TracerOverflow):
+                            raise TracerOverflow() from None
+                        x = x.__cause__ or x.__context__
                     ill = bool(world.get("illposed")) and isinstance(e, ValueError) and "share eigenvalues" in str(e)
                     if want[0] != "raise" and not ill:
                         fail("final-raise", f"final sweep: {key} raised {type(e).__name__}: {e} (a fresh computation returns a value)")
@@ -1102,14 +1189,17 @@ class GraphProp:
     def gen_world(self, r, tier, profile):
         npert = r.choice([1, 1, 1, 2, 2, 3])
         nb = r.choice([1, 2, 2, 2, 3, 3, 4])
-        domain = r.choice(profile.get("domains", ["dense"] * 6 + ["sparse"] * 2 + ["sym"]))
+        domain = r.choice(profile.get("domains", ["dense"] * 6 + ["sparse"] * 2 + ["sym"] + ["tracer"] * 2))
         if domain == "sym":
             nb = min(nb, 2)
             npert = 1
+        if domain == "tracer":
+            nb = min(nb, 3)
+            npert = min(npert, 2)
         sizes = [r.choice([1, 1, 2, 2, 3] if domain != "sym" else [1, 1, 2]) for _ in range(nb)]
         herm = r.random() < 0.65
         fmt = r.choice(profile.get("fmts", ["blocked"] * 5 + ["scalar_idx"] * 2 + ["scalar_vecs", "dict", "list"]))
-        if domain == "sym":
+        if domain in ("sym", "tracer"):
             fmt = "blocked"
         if domain == "sparse" and fmt == "scalar_vecs":
             fmt = "scalar_idx"
@@ -1164,6 +1254,18 @@ class GraphProp:
                          "solver": "default", "chain": 0, "d0_herm": False}
             if domain == "sparse":
                 comps[-1]["fd"] = None
+        if domain == "tracer":
+            w["cap"] = 3 if npert == 1 else 2
+            w["sizes"] = [1] * nb
+            w.pop("illposed", None)
+            w["internals"] = r.random() < 0.7
+            for spec in comps:
+                if spec.get("chain") is not None:
+                    spec["fd"] = None  # no masks in the free algebra (declared Hermiticity must stay structural)
+                spec["fd"] = None
+                spec["solver"] = "default"
+                spec["two_block_optimized"] = bool(nb == 2 and r.random() < 0.5)
+                spec["commuting_blocks"] = [r.random() < 0.6 for _ in range(nb)]
         if fmt == "implicit":
             w["cap"] = 3 if npert == 1 else 2
             w.pop("illposed", None)
@@ -1232,6 +1334,12 @@ class GraphProp:
                     ops.append(["view", c, s, item, len(ops)])
                     if len(live_views) < 4:
                         live_views.append((len(ops) - 1, vshape))
+            elif npert >= 2 and r.random() < 0.35:
+                # lists on several order axes select pairs, not the box: [m1, 0] x [0, m2] asks for (m1, 0) and (0, m2) only
+                lists = [[m, 0] if k % 2 == 0 else [0, m] for k, m in enumerate(n)]
+                if r.random() < 0.5:
+                    lists = [list(reversed(x)) for x in lists]
+                ops.append(["sl", c, s, [r.randrange(nb), r.randrange(nb)] + [{"l": x} for x in lists]])
             else:
                 item = [self._rand_comp(r, nb), self._rand_comp(r, nb)] + [self._rand_order(r, m, scalar=False) for m in n]
                 ops.append(["sl", c, s, item])
@@ -1258,7 +1366,9 @@ class GraphProp:
         if x < 0.4:
             return m
         if x < 0.6:
-            return {"l": sorted({r.randint(0, m) for _ in range(2)} | {m})}
+            lst = [r.randint(0, m), m]
+            r.shuffle(lst)
+            return {"l": lst}
         return {"s": [r.choice([None, 0, r.randint(0, m)]), m + 1, r.choice([None, 1, 2])]}
 
     # ------------------------------------------------------------------ shrinking
